@@ -54,7 +54,6 @@ type UnitSpec struct {
 	Stubs     []string `json:"stubs_note"`
 	Assume    []string `json:"assumptions"`
 	NonTermV  bool     `json:"nontermination_is_violation"`
-	Witness   string   `json:"witness_entry"` // twin harness whose final assert(false) must be violated
 }
 
 // CheckSpec is /verif/checks/<id>.json.
@@ -203,7 +202,10 @@ type unitResult struct {
 	harness map[string][]byte // overlay file -> content (engine flavour)
 	natives nativeStats
 	vacuous []string
-	witnessOK *bool
+	prog    *sx.Program
+	opt     sx.Options
+	loadDir string
+	pattern string
 }
 
 type checkRun struct {
@@ -338,22 +340,12 @@ func (r *checkRun) runUnit(u *UnitSpec, ts TierSpec) {
 	if ts.BudgetS > 0 {
 		opt.Deadline = time.Now().Add(time.Duration(ts.BudgetS) * time.Second)
 	}
+	res.prog, res.opt, res.loadDir, res.pattern = prog, opt, loadDir, pattern
 	res.report = sx.Explore(prog, opt)
 	for _, l := range u.Reach {
 		if res.report.Reach[l] == 0 {
 			res.vacuous = append(res.vacuous, l)
 		}
-	}
-	if u.Witness != "" {
-		wopt := opt
-		wopt.Entry = u.Witness
-		wopt.Unit = u.Name + ".witness"
-		wopt.MaxPaths = 0
-		wopt.StopAtFirst = true
-		wopt.WitnessMode = true
-		wr := sx.Explore(prog, wopt)
-		ok := len(wr.Violations) > 0
-		res.witnessOK = &ok
 	}
 	if !r.noReplay {
 		r.nativeValidate(res)
